@@ -182,3 +182,36 @@ def r_segflag(ctx):
     n = check_segmentation_flag(ctx, [ctx.body(n) for n in ['data::preprocessing::corrupt_whitespace']], 'whitespace corruption')
     if n == 0:
         raise AnchorMissing('CharString::new sites of the whitespace corruption code')
+
+
+@rule('C14', 'R-C14-7', 'prerequisite (the segmentation primitive)',
+      'CharString::new segments by graphemes(true) / chars() selected by the flag alone and keeps byte lengths at full width '
+      '(R-C11-6 re-evaluated): every index, length and range of this property is counted in its characters')
+def r_charstring(ctx):
+    from rules import c11
+    c11.charstring_primitive(ctx)
+
+
+@rule('C14', 'R-C14-6', 'T11 SIBLING (configuration reaches the corruption in the same order)',
+      'the dispatcher passes the payload of PreprocessingFnConfig::WhitespaceCorruption to corrupt_whitespace positionally '
+      '(field 1 -> insert probability, field 2 -> delete probability, field 3 -> grapheme flag), as the parser fills it; operations() '
+      'and repair() count in the same unit (Characters) -- no code point / byte count of the raw text')
+def r6(ctx):
+    d = ctx.body('data::preprocessing::preprocessing')
+    cw = [t for t in d.calls(CW + '$')]
+    if len(cw) != 1:
+        raise AnchorMissing('the call of corrupt_whitespace in the preprocessing dispatcher (found %d)' % len(cw))
+    a = [core(sym(d, x)) for x in cw[0].args]
+    ok = len(a) == 3 and all(x[0] == 'field' and x[1][0] == 'variant' and x[1][2] == 'WhitespaceCorruption' for x in a) and [x[2] for x in a] == [1, 2, 3]
+    ctx.require(ok, d, 'dispatcher-order', 'corrupt_whitespace(payload.1, payload.2, payload.3)',
+                'the dispatcher calls corrupt_whitespace(%s): insert and delete probability are exchanged (or the flag is not the configured one), so a delete probability '
+                'of 0 no longer keeps every whitespace' % ', '.join(show_in(d, x) for x in a), cw[0].span)
+    from rules.common import closures_in
+    for fn in ('whitespace::operations', 'whitespace::repair'):
+        b0 = ctx.body(fn)
+        for b in [b0] + closures_in(ctx, b0):
+            for t in b.calls(r'str::chars$|Chars.*::count$|str::char_indices$|str::bytes$'):
+                ctx.fail(b, 'raw-count|' + fn.rsplit('::', 1)[-1], '%s counts `%s` of the raw text (line %d): operations() and repair() must both count Characters of '
+                         'CS::new(.., use_graphemes), otherwise a correct operation list is rejected for text with multi code point clusters' % (
+                             fn, (t.callee_res() or '').rsplit('::', 2)[-2] + '::' + (t.callee_res() or '').rsplit('::', 1)[-1], t.span['line']), t.span)
+    ctx.ok(d, 'operations()/repair() measure the text through CharString only')
